@@ -5,12 +5,13 @@ open Model
 open Zutil
 
 let size = int_of_nat bINT_SIZE
+let limbhex = int_of_z bINT_WORDBITS / 4
 
 (* hex (unsigned, < 2^160) -> limbs, via plain text slicing (not through the model) *)
 let limbs_of_hex (s : string) : z list =
-  let s = String.make (max 0 (size * 8 - String.length s)) '0' ^ s in
+  let s = String.make (max 0 (size * limbhex - String.length s)) '0' ^ s in
   let n = String.length s in
-  List.init size (fun i -> z_of_hex (String.sub s (n - 8 * (i + 1)) 8))
+  List.init size (fun i -> z_of_hex (String.sub s (n - limbhex * (i + 1)) limbhex))
 
 let hex_of_limbs (l : z list) : string = String.concat "," (List.map hex_of_z l)
 let b2s b = if b then "true" else "false"
@@ -129,6 +130,9 @@ let () =
            | "tohexint" -> res_str (tohexint (a 0) (optz 1))
            | "tobinint" -> res_str (tobinint (a 0) (optz 1))
            | "todecint" -> res_str (todecint (a 0))
+           | "lua_tonumber" -> (match lua_tonumber_base (bytes 0) (zi 1) with Some v -> hex_of_z v | None -> "nil")
+           | "lua_tostring" -> (match lua_tostring_int (zi 0) with Some t -> str_of_codes t | None -> "!err FUEL")
+           | "lua_format_x" -> (match lua_format_x (zi 0) with Some t -> str_of_codes t | None -> "!err FUEL")
            | "tobint" -> optb_s (tobint (lval_of_token (List.nth args 0)))
            | "new" -> cres_s (bnew (lval_of_token (List.nth args 0)))
            | "madd" -> mres_s (madd (lval_of_token (List.nth args 0)) (lval_of_token (List.nth args 1)))
